@@ -18,9 +18,15 @@ suite = r.stdout.strip()
 print('suite with change:', suite)
 d1 = sh('/venv/bin/python seed_demo.py')
 print('demo with change: exit', d1.returncode)
-sh('git stash')
+# NOT git stash: the stash is shared by all worktrees of a repository, concurrent users would swap their changes
+cur = sh('git diff -- pyx12').stdout
+if cur.strip() != open(os.path.join(wt, 'seed_patch.diff')).read().strip():
+    print('NOT KEPT: the worktree does not hold exactly seed_patch.diff (restore it first)'); sys.exit(1)
+r1 = sh('git apply -R seed_patch.diff')
 d0 = sh('/venv/bin/python seed_demo.py')
-sh('git stash pop')
+r2 = sh('git apply seed_patch.diff')
+if r1.returncode or r2.returncode or sh('git diff -- pyx12').stdout != cur:
+    print('NOT KEPT: could not take the change out and put it back', r1.stderr, r2.stderr); sys.exit(1)
 print('demo without change: exit', d0.returncode)
 ok = ('454 passed' in suite) and d1.returncode != 0 and d0.returncode == 0
 results = {}
